@@ -8,7 +8,9 @@
 //!   (`C10:panic:<file>:<line>`, or the signature carried by an in-target oracle) is on the allow-list
 //!   is counted and swallowed so that the campaign keeps exploring; everything else prints
 //!   `VERIF-PANIC sig=… loc=… msg=…` and aborts (libFuzzer then saves the input as a crash).
-//!   `VERIF_FUZZ_STRICT=1` tolerates nothing.
+//!   `VERIF_FUZZ_STRICT=1` tolerates nothing. An iteration that burns `VERIF_FUZZ_CPU_LIMIT` (default 10)
+//!   seconds of *CPU time* prints `VERIF-SLOW sig=C10:timeout:<target> cpu_s=…` and aborts as well (the
+//!   wall-clock `-timeout` of libFuzzer only serves as a hang detector on a loaded machine).
 //! * `ctx()`: a fresh `c2pa::Context` per call (no network fetches, 1 MB decompression limit).
 //!
 //! Panic signature: the panic location if it lies in the SDK (`sdk/src/...`); otherwise (a dependency or
@@ -27,9 +29,15 @@ pub const SETTINGS: &str = r#"{
   "builder": { "thumbnail": { "enabled": false } }
 }"#;
 
-/// Same, with the fixture roots as trust anchors (for the targets that carry an oracle on verdicts).
+/// `SETTINGS` parsed once (immutable); every iteration gets a fresh `Context` carrying a copy of it.
+fn settings() -> &'static c2pa::settings::Settings {
+    static S: OnceLock<c2pa::settings::Settings> = OnceLock::new();
+    S.get_or_init(|| c2pa::settings::Settings::new().with_json(SETTINGS).expect("settings"))
+}
+
+/// A fresh context (no network fetches, 1 MB decompression limit, no thumbnails).
 pub fn ctx() -> c2pa::Context {
-    c2pa::Context::new().with_settings(SETTINGS).expect("settings")
+    c2pa::Context::new().with_settings(settings()).expect("settings")
 }
 
 /// Context with explicit settings JSON merged over `SETTINGS`.
@@ -206,6 +214,19 @@ pub fn init(target: &'static str) {
     }
     // force the lazy tables now so that they are not attributed to the first input
     let _ = formats();
+    let _ = settings();
+    let _ = CPU_LIMIT.set(std::env::var("VERIF_FUZZ_CPU_LIMIT").ok().and_then(|v| v.parse::<f64>().ok()).unwrap_or(10.0));
+}
+
+static CPU_LIMIT: OnceLock<f64> = OnceLock::new();
+
+/// CPU seconds consumed by this process so far (wall-clock time is useless on a shared machine).
+fn cpu_now() -> f64 {
+    let mut ts = libc::timespec { tv_sec: 0, tv_nsec: 0 };
+    unsafe {
+        libc::clock_gettime(libc::CLOCK_PROCESS_CPUTIME_ID, &mut ts);
+    }
+    ts.tv_sec as f64 + ts.tv_nsec as f64 * 1e-9
 }
 
 /// In-target oracles panic with `"<ID>-ORACLE: sig=<signature> :: <details>"`.
@@ -243,7 +264,19 @@ pub fn guard<F: FnOnce()>(f: F) {
     if let Ok(mut l) = LAST.lock() {
         *l = None;
     }
+    let t0 = cpu_now();
     let r = panic::catch_unwind(AssertUnwindSafe(f));
+    let used = cpu_now() - t0;
+    if used >= *CPU_LIMIT.get().unwrap_or(&10.0) {
+        // the "never runs unboundedly long" half of the property, judged on CPU time of this one input
+        let sig = format!("C10:timeout:{}", TARGET.get().copied().unwrap_or("?"));
+        if allowed(&sig) {
+            count(&format!("tolerated:{sig}"));
+        } else {
+            eprintln!("VERIF-SLOW sig={sig} cpu_s={used:.1}");
+            std::process::abort();
+        }
+    }
     if r.is_ok() {
         return;
     }
